@@ -113,8 +113,6 @@ func promptBound(inputLen int) time.Duration {
 	return b
 }
 
-const findC15Q = "C15-verifyblockproof-quadratic-in-proof-depth"
-
 // timed runs one decode under guard. Oracles: no panic; an absolute limit of 10 s; and promptness — the wall time, taken as
 // the minimum of two runs when the first one exceeds the bound (machine load), stays within promptBound(inputLen). A case
 // with a promptness failure is run again alone by the harness before it counts (main.go).
@@ -156,30 +154,6 @@ func panicSite() string {
 	}
 }
 
-// knownFollowUpPanic: what the code at HEAD does NOT satisfy (reported, left to the maintainers; notes/C15wmpt.md): a trie
-// loaded from an accepted input can make three later calls panic. They are matched by the function that panics and
-// recorded as observations; a panic anywhere else is a failure.
-func knownFollowUpPanic(site, msg string) string {
-	switch {
-	case strings.HasSuffix(site, "wmpt.decodeNibbles") && strings.Contains(msg, "index out of range"):
-		// GetBlockProof converts the nibble path to key bytes without checking that its length is even (short-node keys of
-		// any length are accepted)
-		return "obs:GetBlockProof-panics-on-a-path-of-odd-length"
-	case strings.HasSuffix(site, ".insert") && strings.Contains(msg, "index out of range"):
-		// Update splits a short node whose key holds a byte that is not a nibble (>= 16): it indexes the 16 children with it
-		return "obs:Update-panics-splitting-a-short-node-whose-key-is-not-made-of-nibbles"
-	case strings.HasSuffix(site, ".GetPath") && strings.Contains(msg, "nil pointer"):
-		// GetPath loads a reference root through t.db without checking that a storage is set (an export of zero keys is
-		// one reference: its import is such a trie)
-		return "obs:GetPath-dereferences-the-missing-storage-when-the-root-is-a-reference"
-	case strings.Contains(site, "(*shortNode).") && strings.Contains(msg, "nil pointer"):
-		// Delete of a key that runs through a value node sitting ABOVE the full key depth (accepted by the importers)
-		// removes that value node and leaves its short node without a child; the next Weight() / export dereferences it
-		return "obs:Delete-leaves-a-short-node-without-child-when-a-value-node-sits-above-the-key-depth"
-	}
-	return ""
-}
-
 // followUps: whatever a decoder ACCEPTED has to be usable: the operations a caller runs next on the loaded trie — proofs
 // for the first and the last block, path exports, an update, deletes, root — must not panic (errors are fine). The
 // results are not part of the op's output (oracle only).
@@ -205,12 +179,17 @@ func followUps(i int, x *CaseResult, obsTags map[string]bool, what string, t *wm
 			f()
 		}()
 		if pv != nil {
-			if obs := knownFollowUpPanic(site, fmt.Sprint(pv)); obs != "" {
-				obsTags[obs] = true
-			} else {
-				x.Fails = append(x.Fails, fmt.Sprintf("op %d: %s accepted the input, then %s panicked on the loaded trie: %v (in %s)", i, what, name, pv, site))
+			if strings.Contains(site, "(*shortNode).") && strings.Contains(fmt.Sprint(pv), "nil pointer") {
+				// What HEAD does not satisfy (observation, notes/C15wmpt.md): Delete of a key whose path runs through a short node
+				// under a short node (accepted by the importers; the trie never builds it) removes the lower one and leaves the upper
+				// one without a child; Weight() / Serialize() then dereference it. (The other four follow-up panics found in round 3
+				// are fixed: 95fe15c, f270208, 527796b, acaed54.)
+				obsTags["obs:Delete-leaves-a-short-node-without-child-when-its-child-was-a-short-node"] = true
 				stop = true
+				return
 			}
+			x.Fails = append(x.Fails, fmt.Sprintf("op %d: %s accepted the input, then %s panicked on the loaded trie: %v (in %s)", i, what, name, pv, site))
+			stop = true
 		}
 		if d := time.Since(start); d > 10*time.Second {
 			x.Fails = append(x.Fails, fmt.Sprintf("op %d: %s accepted the input, then %s took %s", i, what, name, d))
@@ -563,8 +542,8 @@ func cchain(r *rand.Rand, depth, kind int) csub {
 
 // craftedExports: hash-consistent exports of shapes the trie's own operations never build — short-node keys of every
 // length around and beyond the 64 nibbles of a key (1, 2, 63, 64, 65, 70, 200), value nodes above the full depth, keys
-// holding bytes that are not nibbles, short nodes under short nodes, small single-child chains. The importers accept
-// them (they check hashes, not shapes); whatever runs next on the loaded trie must cope.
+// holding bytes that are not nibbles (rejected since fix f270208), short nodes under short nodes, small single-child
+// chains. The importers accept the others (they check hashes, not shapes); whatever runs next on the loaded trie must cope.
 func craftedExports(r *rand.Rand, idx int) []csub {
 	nibs := func(n int) []byte {
 		k := make([]byte, n)
